@@ -222,7 +222,8 @@ package regexp2
 //@   requires FactMinLen(r.code, rt, textstart)
 //@   modifies r.*, r.runmatch.*, elems(int), elems([]int)
 //@   ensures[state]   r.Runtext == rt && r.Runtextstart == textstart && r.Runtextend == len(rt) && r.code == old(r.code) && r.re == old(r.re)
-//@   ensures[alloc]   RunnerAlloc(r)
+//@   ensures[alloc]   RunnerAlloc(r) && (r.runmatch != nil ==> MatchWF(r.runmatch))
+//@   ensures[detach]  err == nil && m != nil && !quick ==> r.runmatch == nil
 //@   ensures[nomatch-ltr] err == nil && m == nil && !r.code.RightToLeft ==>
 //@              forall p int :: ScanFrom(false, textstart, previousMatchLength) <= p && p <= len(rt) ==> !Att(r.code, rt, textstart, p)
 //@   ensures[nomatch-rtl] err == nil && m == nil && r.code.RightToLeft ==>
@@ -299,3 +300,107 @@ package regexp2
 //@   ensures m.RuneIndex == old(m.matches[0][0]) && m.RuneLength == old(m.matches[0][1]) && m.textpos == textpos && m.capcount == old(m.matchcount[0])
 //@   ensures !m.balancing && m.text == old(m.text) && m.textstart == old(m.textstart) && m.regex == old(m.regex) && m.matches == old(m.matches) && m.matchcount == old(m.matchcount)
 //@   ensures len(m.Captures) == 1 && m.Captures[0].RuneIndex == m.RuneIndex && m.Captures[0].RuneLength == m.RuneLength && m.Captures[0].text == m.text
+
+// ---------------------------------------------------------------------------------------------
+// C02 / C07 / C12: entry points on rune slices, runner pool (regexp.go, runner.go)
+// ---------------------------------------------------------------------------------------------
+
+// What Compile establishes for a Regexp (assumed at every public entry point; the quick-program half is proved
+// at makeQuickCode). E-quick: the bool-only program succeeds at exactly the positions the full program does.
+//@ spec func RegexpWF(re *Regexp) bool = re != nil && re.code != nil && re.capsize >= 1 && re.code.TrackCount >= 0 &&
+//@     re.code.RightToLeft == ((re.options & RightToLeft) != 0) &&
+//@     (re.quickCode != nil ==> re.quickCode.TrackCount == re.code.TrackCount && re.quickCode.RightToLeft == re.code.RightToLeft &&
+//@          re.quickCode.FindOptimizations == re.code.FindOptimizations &&
+//@          forall text []rune, origin int, p int :: Att(re.quickCode, text, origin, p) == Att(re.code, text, origin, p))
+// C04 (assumed here, decided under C04): published facts hold for every text.
+//@ spec func RegexpFacts(re *Regexp) bool = forall text []rune, origin int :: FactMinLen(re.code, text, origin)
+
+// Invariant of runners stored in the pool.
+//@ spec func PooledRunner(re *Regexp, r *Runner) bool = r != nil && r.re == re && r.code == re.code && r.Runtext == nil && RunnerAlloc(r) &&
+//@     (r.runmatch != nil ==> MatchWF(r.runmatch) && r.runmatch.text == nil)
+
+//@ func (re *Regexp) getRunner() (r *Runner)
+//@   trusted sync.Pool semantics: Get returns a value built by New (fresh Runner{re, code}) or one previously Put; every Put is in putRunner, which proves PooledRunner
+//@   requires re != nil
+//@   modifies re.runnerPool, re.replaceCache
+//@   ensures PooledRunner(re, r) && re.runnerPool != nil
+
+//@ func (re *Regexp) putRunner(r *Runner)
+//@   props C12
+//@   requires re != nil && r != nil && re.runnerPool != nil && r.re == re && RunnerAlloc(r) && (r.runmatch != nil ==> MatchWF(r.runmatch))
+//@   requires re.code != nil && r.code != nil && r.code.TrackCount == re.code.TrackCount
+//@   modifies r.Runtext, r.code, r.runmatch.text
+//@   ensures[pool-inv] PooledRunner(re, r)
+
+//@ func makeQuickCode(code *syntax.Code) (q *syntax.Code)
+//@   props C02
+//@   ensures q != nil ==> fresh(q) && q.TrackCount == code.TrackCount && q.RightToLeft == code.RightToLeft && q.FindOptimizations == code.FindOptimizations &&
+//@              q.Codes == code.QuickCodes && q.Strings == code.Strings && q.Sets == code.Sets && q.Capsize == code.Capsize && q.Anchors == code.Anchors
+//@   ensures (q == nil) == (code == nil || len(code.QuickCodes) == 0)
+
+// Result of a search on rune input: exists-a-match and the position reported, as a function of the arguments only.
+//@ spec func NormStart(rtl bool, textstart int, n int) int = ite(textstart < 0, ite(rtl, n, 0), textstart)
+//@ spec func InScanRange(rtl bool, from int, n int, p int) bool = ite(rtl, 0 <= p && p <= from, from <= p && p <= n)
+//@ spec func HasMatch(code *syntax.Code, text []rune, origin int, from int) bool = exists p int :: InScanRange(code.RightToLeft, from, len(text), p) && Att(code, text, origin, p)
+// q is the first position in scan order with a successful attempt
+//@ spec func FirstMatchAt(code *syntax.Code, text []rune, origin int, from int, q int) bool = InScanRange(code.RightToLeft, from, len(text), q) && Att(code, text, origin, q) &&
+//@     forall p int :: InScanRange(code.RightToLeft, from, len(text), p) && ite(code.RightToLeft, p > q, p < q) ==> !Att(code, text, origin, p)
+// the attempt position a detached match was found at
+//@ spec func MatchPos(m *Match, rtl bool) int = ite(rtl, m.RuneIndex + m.RuneLength, m.RuneIndex)
+// well-formedness of a match handed to the user (C08) and the cursor FindNextMatch continues from (C07)
+//@ spec func ReturnedMatch(m *Match, rtl bool) bool = m.text != nil && 0 <= m.RuneIndex && 0 <= m.RuneLength && m.RuneIndex + m.RuneLength <= len(m.text.runes) &&
+//@     m.textpos == ite(rtl, m.RuneIndex, m.RuneIndex + m.RuneLength)
+
+//@ func (re *Regexp) run(quick bool, textstart int, previousMatchLength int, input []rune, textInfo *matchText) (m *Match, err error)
+//@   props C02 C07 C12
+//@   requires RegexpWF(re) && RegexpFacts(re) && re.runnerPool != nil
+//@   requires textInfo != nil ==> textInfo.runes == input
+//@   modifies re.runnerPool, re.replaceCache, objs(Runner), objs(Match), elems(int), elems([]int)
+//@   ensures[errnil]  err != nil ==> m == nil
+//@   ensures[argerr]  (textstart > len(input)) ==> err != nil
+//@   ensures[found]   err == nil ==> ((m != nil) == HasMatch(re.code, input, NormStart(re.code.RightToLeft, textstart, len(input)), ScanFrom(re.code.RightToLeft, NormStart(re.code.RightToLeft, textstart, len(input)), previousMatchLength)))
+//@   ensures[first]   err == nil && m != nil && !quick ==> FirstMatchAt(re.code, input, NormStart(re.code.RightToLeft, textstart, len(input)), ScanFrom(re.code.RightToLeft, NormStart(re.code.RightToLeft, textstart, len(input)), previousMatchLength), MatchPos(m, re.code.RightToLeft))
+//@   ensures[wf]      err == nil && m != nil && !quick && textInfo != nil ==> ReturnedMatch(m, re.code.RightToLeft) && m.text == textInfo && m.textstart == NormStart(re.code.RightToLeft, textstart, len(input))
+//@   ensures[fresh]   err == nil && m != nil && !quick ==> allocated(m)
+
+//@ func (re *Regexp) FindRunesMatch(r []rune) (m *Match, err error)
+//@   props C02 C07 C08
+//@   requires RegexpWF(re) && RegexpFacts(re) && re.runnerPool != nil
+//@   modifies re.runnerPool, re.replaceCache, objs(Runner), objs(Match), elems(int), elems([]int)
+//@   ensures[errnil] err != nil ==> m == nil
+//@   ensures[found]  err == nil ==> ((m != nil) == HasMatch(re.code, r, NormStart(re.code.RightToLeft, -1, len(r)), NormStart(re.code.RightToLeft, -1, len(r))))
+//@   ensures[first]  err == nil && m != nil ==> FirstMatchAt(re.code, r, NormStart(re.code.RightToLeft, -1, len(r)), NormStart(re.code.RightToLeft, -1, len(r)), MatchPos(m, re.code.RightToLeft))
+//@   ensures[wf]     err == nil && m != nil ==> ReturnedMatch(m, re.code.RightToLeft) && m.text.runes == r
+
+//@ func (re *Regexp) FindRunesMatchStartingAt(r []rune, startAt int) (m *Match, err error)
+//@   props C02 C07 C08
+//@   requires RegexpWF(re) && RegexpFacts(re) && re.runnerPool != nil
+//@   modifies re.runnerPool, re.replaceCache, objs(Runner), objs(Match), elems(int), elems([]int)
+//@   ensures[errnil] err != nil ==> m == nil
+//@   ensures[argerr] startAt > len(r) ==> err != nil
+//@   ensures[found]  err == nil ==> ((m != nil) == HasMatch(re.code, r, NormStart(re.code.RightToLeft, startAt, len(r)), NormStart(re.code.RightToLeft, startAt, len(r))))
+//@   ensures[first]  err == nil && m != nil ==> FirstMatchAt(re.code, r, NormStart(re.code.RightToLeft, startAt, len(r)), NormStart(re.code.RightToLeft, startAt, len(r)), MatchPos(m, re.code.RightToLeft))
+//@   ensures[wf]     err == nil && m != nil ==> ReturnedMatch(m, re.code.RightToLeft) && m.text.runes == r
+
+// C02: the boolean call is true exactly when the find call (same arguments) returns a match: both equal HasMatch(...).
+//@ func (re *Regexp) MatchRunes(r []rune) (ok bool, err error)
+//@   props C02
+//@   requires RegexpWF(re) && RegexpFacts(re) && re.runnerPool != nil
+//@   modifies re.runnerPool, re.replaceCache, objs(Runner), objs(Match), elems(int), elems([]int)
+//@   ensures[errfalse] err != nil ==> !ok
+//@   ensures[found]    err == nil ==> (ok == HasMatch(re.code, r, NormStart(re.code.RightToLeft, -1, len(r)), NormStart(re.code.RightToLeft, -1, len(r))))
+
+// C07: the next match is the independent search from the previous match's end (one further after an empty match)
+// with \G bound to that end; start positions strictly advance and spans do not overlap.
+//@ func (re *Regexp) FindNextMatch(m *Match) (n *Match, err error)
+//@   props C07 C02
+//@   requires RegexpWF(re) && RegexpFacts(re) && re.runnerPool != nil
+//@   requires m != nil ==> ReturnedMatch(m, re.code.RightToLeft)
+//@   modifies re.runnerPool, re.replaceCache, objs(Runner), objs(Match), elems(int), elems([]int)
+//@   ensures[nil]     m == nil ==> n == nil && err == nil
+//@   ensures[errnil]  err != nil ==> n == nil
+//@   ensures[search]  m != nil && err == nil ==> ((n != nil) == HasMatch(re.code, old(m.text.runes), old(m.textpos), ScanFrom(re.code.RightToLeft, old(m.textpos), old(m.RuneLength))))
+//@   ensures[first]   m != nil && err == nil && n != nil ==> FirstMatchAt(re.code, old(m.text.runes), old(m.textpos), ScanFrom(re.code.RightToLeft, old(m.textpos), old(m.RuneLength)), MatchPos(n, re.code.RightToLeft))
+//@   ensures[wf]      m != nil && err == nil && n != nil ==> ReturnedMatch(n, re.code.RightToLeft) && n.text == old(m.text)
+//@   ensures[advance-ltr] m != nil && err == nil && n != nil && !re.code.RightToLeft ==> n.RuneIndex >= old(m.RuneIndex + m.RuneLength) && (old(m.RuneLength) == 0 ==> n.RuneIndex > old(m.RuneIndex))
+//@   ensures[advance-rtl] m != nil && err == nil && n != nil && re.code.RightToLeft ==> n.RuneIndex + n.RuneLength <= old(m.RuneIndex) && (old(m.RuneLength) == 0 ==> n.RuneIndex + n.RuneLength < old(m.RuneIndex))
